@@ -59,7 +59,7 @@ pub fn run(tier: Tier) -> i32 {
     for pi in 0..progs.len() {
         let n = enc::encode(3, 0, 2, u64::MAX, &progs[pi]).expect.len() as u64;
         let svals = |n: u64| -> Vec<u64> {
-            let mut v = vec![n, n.saturating_sub(1), n + 1, 0];
+            let mut v = vec![n, n.saturating_sub(1), n + 1, 0, 1 << 63, u64::MAX - 1, u64::MAX];
             v.sort_unstable();
             v.dedup();
             v
@@ -237,6 +237,39 @@ pub fn run(tier: Tier) -> i32 {
             }
         }
         ctx.scope_done("marker-with-unfinished-coder", n, t1, "");
+    }
+    // ---------------------------------------------------------------- the marker of an earlier call does not excuse a later one
+    // (raw decoder without a size: marker-terminated stream, then - with and without reset - an input that ends
+    // without a marker at a point where the range coder is "finished": the five coder start bytes 00 00 00 00 00)
+    {
+        use crate::cases::RawOp;
+        let t2 = Instant::now();
+        let mut n = 0u64;
+        for (lc, lp, pb) in [(3u32, 0u32, 2u32), (0, 0, 0)] {
+            for (pi, prog) in progs.iter().enumerate().take(12) {
+                let mut p = prog.clone();
+                p.push(Sym::E);
+                let e = enc::encode(lc, lp, pb, u64::MAX, &p);
+                for with_reset in [false, true] {
+                    let mut ops = vec![RawOp::Dec(Hex(e.payload.clone()))];
+                    if with_reset {
+                        ops.push(RawOp::Reset);
+                    }
+                    ops.push(RawOp::Dec(Hex(vec![0u8; 5])));
+                    let case = Case::RawLzma { lc, lp, pb, dict: 1 << 16, size: None, memlimit: None, ops };
+                    let o = run_case(&case);
+                    n += 1;
+                    ctx.eval(1);
+                    ctx.nontriv(1);
+                    let first_ok = o.ops.first().map_or(false, |r| r.v.is_ok());
+                    let last_err = o.ops.last().map_or(false, |r| r.v.is_err());
+                    if !(first_ok && last_err) {
+                        ctx.violation(&case, &format!("raw decoder without a size: program #{} + marker decodes Ok; then{} an input of just the five coder start bytes (no marker) => Err", pi, if with_reset { " reset(None) and" } else { "" }), &o, None);
+                    }
+                }
+            }
+        }
+        ctx.scope_done("raw-decoder-second-call-without-marker", n, t2, "");
     }
     ctx.finish()
 }
